@@ -905,16 +905,20 @@ Proof. vm_compute. split; reflexivity. Qed.
 (* ---------------------------------------------------------------- per-point arrays *)
 Theorem array_routing_sound (t : list aentry) :
   array_routing_ok t = true ->
-  (forall e, In e t -> exists rest, a_events e = AValidate :: rest) /\
-  (forall r, In r required_arrays -> exists e, In e t /\ amatches r e = true /\
-                                     exists rest, a_events e = AValidate :: rest).
+  (forall e, In e t -> a_arg e <> forwarded_arg -> exists rest, a_events e = AValidate :: rest) /\
+  (forall e, In e t -> a_arg e = forwarded_arg ->
+     a_events e <> [] /\ forall a, In a (a_events e) -> a = APad) /\
+  (forall r, In r required_arrays -> exists e, In e t /\ amatches r e = true).
 Proof.
   unfold array_routing_ok. intros H. apply andb_prop in H as [H1 H2].
-  rewrite forallb_forall in H1, H2.
-  assert (A : forall e, In e t -> exists rest, a_events e = AValidate :: rest).
-  { intros e He. specialize (H1 e He). unfold aentry_ok in H1.
-    destruct (a_events e) as [|[|] rest]; try discriminate. now exists rest. }
-  split; [exact A|].
-  intros r Hr. specialize (H2 r Hr). apply existsb_exists in H2 as [e [He Hm]].
-  exists e. repeat split; try assumption. now apply A.
+  rewrite forallb_forall in H1, H2. repeat split.
+  - intros e He Hn. specialize (H1 e He). unfold aentry_ok in H1.
+    destruct (String.eqb (a_arg e) forwarded_arg) eqn:E; [apply String.eqb_eq in E; congruence|].
+    destruct (a_events e) as [|[| |] rest]; try discriminate. now exists rest.
+  - specialize (H1 e H). unfold aentry_ok in H1. rewrite H0, String.eqb_refl in H1.
+    unfold forwarded_ok in H1. destruct (a_events e); [discriminate|discriminate].
+  - intros a Ha. specialize (H1 e H). unfold aentry_ok in H1. rewrite H0, String.eqb_refl in H1.
+    unfold forwarded_ok in H1. destruct (a_events e) as [|x l] eqn:E; [destruct Ha|].
+    rewrite forallb_forall in H1. specialize (H1 a Ha). now destruct a.
+  - intros r Hr. specialize (H2 r Hr). apply existsb_exists in H2 as [e [He Hm]]. now exists e.
 Qed.
